@@ -68,7 +68,7 @@ theorem itemOK_lines (O : Oracle) (hO : OracleOK O) (fuel : Nat) (la lb : List (
   | zero => simp [diffAt] at h
   | succ f =>
     simp only [diffAt] at h
-    obtain ⟨cops, c1, c2, c3, c4⟩ := diffStringsByChar_ok O hO _ _ cd h
+    obtain ⟨cops, c1, c2, c3, c4, _⟩ := diffStringsByChar_ok O hO _ _ cd h
     refine ⟨⟨_, _, cops, rfl, rfl, c1, c2, c3, c4⟩, ?_⟩
     intro hnil
     subst hnil
